@@ -54,6 +54,11 @@ CLAIMED = {
    text="For 53 template positions (every Tx field, every Expression container, every BuiltInOp / Coerce / CompilerOp operand, the fields of a nested input query, `fees` and inputs nested in expressions) the real find_params / find_queries report exactly the leaves an independent walk of the value tree finds, and after the real apply_args / apply_inputs / apply_fees (3 stage orders, symbolic argument and fee) and reduce the walk finds no unresolved parameter; safe_apply_args refuses with MissingTxArg naming a missing parameter exactly when a reported parameter is absent, for all 128 argument maps over 3 declared + 4 undeclared keys (presence symbolic).",
    note="mirsym + std models; structure of each template concrete, values symbolic; depth <= 3.",
    design="§3 C06"),
+ "C07": dict(
+   technique="symbolic execution of the MIR of the staged application, reduce and compiler-op visitor (mirsym -> z3): every schedule compared with a reference schedule under symbolic arguments, UTxO contents and fee",
+   text="For 7 templates exercising asset arithmetic over inputs and fees, time/slot and script-address built-ins on parameters, a parameterised asset name, a datum-less input under subtraction, indexing and nested queries, every schedule (stage orders of {args, inputs, fees, compiler-ops} with args before compiler-ops x reduce interleavings; a seeded sample in quick, all 192 in thorough) is executed from MIR next to the reference schedule and z3 shows the two fully reduced templates structurally equal for all argument/UTxO/fee values; reduce of the result is shown idempotent.",
+   note="real tx3-cardano Compiler::reduce_op for the built-ins (min_utxo excluded); asset lists and UTxO sets compared as sorted multisets.",
+   design="§3 C07"),
 }
 
 NA = {
